@@ -288,3 +288,44 @@ Section Entrywise.
     rewrite IH by (rewrite update_length; exact Hl).
     rewrite nth_update; [ring|]. destruct (col_dims c nS k Hd) as [E | E]; [left; exact E | right; congruence]. Qed.
 End Entrywise.
+
+(* ---------------- C11 with deterministic drift: models that mix events with explicit ODE terms ---------------- *)
+Section Drift.
+  Variable failed_one : option Qc -> option Qc -> Qc -> bool.
+  Hypothesis failed_one_spec : forall lo hi v, failed_one lo hi v = false -> in_range lo hi v.
+  Notation first_reaction := (first_reaction failed_one true true true true true).
+  Notation tau_leap := (tau_leap failed_one true true true).
+  Notation loop := (loop failed_one true true true true true).
+  Notation failed := (failed failed_one).
+
+  Lemma first_reaction_within c x t rates clocks t' x' n :
+    first_reaction c x t rates clocks = Step t' x' n true -> within (lims c) x'.
+  Proof. intros H. unfold Stoch.first_reaction in H.
+    destruct (all_zero rates); [discriminate|].
+    destruct (jump_times true rates clocks) as [jt|]; [|discriminate].
+    destruct (argmin true jt) as [[j dt]|]; [|discriminate].
+    unfold Stoch.check_jump in H. destruct (failed (lims c) _) eqn:Ef; [discriminate|].
+    inversion H; subst. apply (failed_within failed_one failed_one_spec), Ef. Qed.
+  Lemma tau_leap_within c x t rates pure tau counts t' x' n :
+    tau_leap c x t rates pure tau counts = Step t' x' n true -> within (lims c) x'.
+  Proof. intros H. unfold Stoch.tau_leap in H. destruct (all_zero rates); [discriminate|].
+    unfold Stoch.check_jump in H. destruct (failed (lims c) _) eqn:Ef; [discriminate|].
+    inversion H; subst. apply (failed_within failed_one failed_one_spec), Ef. Qed.
+
+  (* no hypothesis at all on the schedule: any rates, clocks, tau, counts and any drift vector *)
+  Theorem loop_within c T : forall s x t, all_within (lims c) (fst (loop c T x t s)).
+  Proof. induction s as [|st r IH]; intros x t; simpl.
+    - destruct (Qcleb T t); simpl; exact I.
+    - destruct (Qcleb T t); simpl; [exact I|].
+      destruct st as [rates clocks | rates pure tau counts fb].
+      + destruct (first_reaction c x t rates clocks) as [t' x' n [|]| | |] eqn:Ef; simpl; try exact I.
+        specialize (IH x' t'). destruct (loop c T x' t' r) as [p stp]; simpl in *.
+        split; [eapply first_reaction_within; eauto | exact IH].
+      + destruct (tau_leap c x t rates pure tau counts) as [t' x' n [|]| | |] eqn:Et; simpl; try exact I.
+        * specialize (IH x' t'). destruct (loop c T x' t' r) as [p stp]; simpl in *.
+          split; [eapply tau_leap_within; eauto | exact IH].
+        * destruct (first_reaction c x t rates fb) as [t2 x2 n2 [|]| | |] eqn:Ef; simpl; try exact I.
+          specialize (IH x2 t2). destruct (loop c T x2 t2 r) as [p stp]; simpl in *.
+          split; [eapply first_reaction_within; eauto | exact IH].
+  Qed.
+End Drift.
